@@ -6,6 +6,7 @@
     ovf <val> <ty>       -> same as `dec (marshal val) ty`       (width overflow probes)
     raw <hex>            -> `ok <item> <rest-hex>` | `err`       (Base/Rlp.decodeItem, untyped)
     tobj <hex>           -> `ok`  (TypedObj decoding: oracle only on the Go side)
+    tdict <seed>         -> `ok`  (TypedObj/TypedDict histories: decode, update Map, re-encode; oracle only)
     rep <tmpl> <byte> <n> -> `<len(enc)> <first 8 bytes> ok|err`: round trip of a value holding n copies
                             of <byte> as []byte/string (templates `repCase`), top-level maxSB = len(input)
 
@@ -172,6 +173,7 @@ def step (s : Unit) (toks : List String) : Unit × String :=
       | none => "err"
     | none => "bad-op"
   | ["tobj", _] => "ok"
+  | ["tdict", _] => "ok"
   | ["rep", t, bh, n] =>
     match t.toNat?, Hex.decodeWire bh, n.toNat? with
     | some t, some [x], some n =>
